@@ -510,13 +510,27 @@ class Inliner:
         return out
 
     def run(self) -> int:
-        if not self.helpers:
-            return 0
 
         def do_fn(fn: ast.FunctionDef, cls: str | None):
             host_names = {n.id for n in ast.walk(fn) if isinstance(n, ast.Name)} | {a.arg for a in ast.walk(fn) if isinstance(a, ast.arg)}
             self._host_fn = fn
-            fn.body = self.process_block(fn.body, cls, host_names)
+            # private nested functions without nonlocal / global state are helpers of this host only (free variables are the host's own)
+            nested = {}
+            for n in fn.body:
+                if isinstance(n, ast.FunctionDef) and _Helper.eligible(n, None) and (None, n.name) not in self.helpers:
+                    h = _Helper(n, None)
+                    h.static = True
+                    nested[(None, n.name)] = h
+            self.helpers.update(nested)
+            try:
+                fn.body = self.process_block(fn.body, cls, host_names)
+            finally:
+                for k in nested:
+                    self.helpers.pop(k, None)
+            for k, h in nested.items():
+                own = {id(x) for x in ast.walk(h.fn)}
+                if not any(isinstance(x, ast.Name) and x.id == k[1] and id(x) not in own for x in ast.walk(fn)):
+                    fn.body = [s_ for s_ in fn.body if s_ is not h.fn] or fn.body      # every call was put in place: the definition is gone
             for n in ast.walk(fn):
                 if n is not fn and isinstance(n, ast.FunctionDef):
                     do_fn(n, cls)
